@@ -363,10 +363,8 @@ def run(chk: core.Check):
         st, _ = translate.run()
         status.update(st)
     skip = {}
-    try:
+    with core.LeanLock():  # the translator writes the generated Lean files
         pre()
-    except Exception:
-        pass
     skip = {m: "translator (route T2): " + ", ".join(f"{k}: {status.get(k, {}).get('reason')}" for k in ks
                                                      if status.get(k, {}).get("state") != "translated")
             for m, ks in L1_LOOPS.items() if any(status.get(k, {}).get("state") != "translated" for k in ks)}
